@@ -1589,7 +1589,8 @@ func ruleSelectionResetOnDelete(c *report.Ctx) {
 }
 
 // ruleNoMemoryTipUnderUpdate (C01/C18/C06): the follower's in-memory tip is not written by code that runs inside a write transaction.
-func ruleNoMemoryTipUnderUpdate(c *report.Ctx) {
+// withPushes adds the task-queue half (C18: a reported failure must not have been acted upon).
+func ruleNoMemoryTipUnderUpdate(c *report.Ctx, withPushes bool) {
 	p := c.P
 	c.Rule("memory-tip-outside-transaction", "nothing reachable from the closure of a write transaction stores NtfnsHandler.bestBlock or queues a background task: in-memory effects happen only after the commit succeeded, so a failed commit is retried / reported without having been acted upon", 5)
 	nh := p.Type(pkgWallet, "NtfnsHandler")
@@ -1615,7 +1616,7 @@ func ruleNoMemoryTipUnderUpdate(c *report.Ctx) {
 		sort.Slice(fs, func(i, j int) bool { return sk(fs[i]) < sk(fs[j]) })
 		for _, f := range fs {
 			for _, pn := range []string{"PushRemove", "PushImport"} {
-				if pf := p.Fn(pkgWallet, "WalletTaskChan", pn); pf != nil {
+				if pf := p.Fn(pkgWallet, "WalletTaskChan", pn); pf != nil && withPushes {
 					for _, ps := range calls(f, pf) {
 						bad = true
 						c.Fail(sk(s.Closure)+"~>"+sk(f)+":"+pn, "a background task is queued from inside the write transaction started by "+sk(s.Caller)+": when the commit fails the caller reports the failure but the worker carries the task out anyway (a wallet whose removal was reported failed is deleted)", posOf(c, ps), p.Witness(parent, f)...)
